@@ -142,7 +142,19 @@ class Report:
         if extra:
             ev["coverage"].update(extra)
         ev["coverage"]["known_findings_seen"] = self.known_hits
-        ev["coverage"]["harness_errors"] = len(self.harness_errors)
+        # counters that describe the health / speed of the run rather than the work it covered live in
+        # their own sub-objects (a fresh run on a quiet machine legitimately reports 0 inconclusive runs)
+        cov = ev["coverage"]
+        health = {"harness_errors": len(self.harness_errors)}
+        for k in ("inconclusive_runs", "comparisons_skipped_solver_unknown"):
+            if k in cov:
+                health[k] = cov.pop(k)
+        cov["run_health"] = health
+        rates = {}
+        for k in list(cov):
+            if k.endswith("_per_hour"):
+                rates[k] = cov.pop(k)
+        cov["rates_machine_dependent"] = rates
         path = os.path.join(EVIDENCE_DIR, f"{self.prop}.json")
         tmp = path + ".tmp"
         with open(tmp, "w") as f:
